@@ -210,30 +210,48 @@ fn resolve(is_last: bool, v: i32, len: i64) -> i64 {
     if is_last { len - 1 + v as i64 } else { v as i64 }
 }
 
-/// C08 `$[2, 4, 0, 5 to 9, last-1 to last]` on [w2, null|bool, str1, float] (widths 2,0,1,9): the positions are the
-/// elements 2, 0, 2, 3 in PATH order (descending and repeated indices, out-of-range index and range dropped, a range
-/// touching the end), each with its type, absolute payload offset and length
+/// C08 `$[2 to 2, 0 to 0, 2 to last]` on [w2, null|bool, str1] (widths 2,0,1): the positions are the elements 2, 0, 2 in
+/// PATH order (descending and repeated selections, one-element ranges), each with its type, absolute payload offset and
+/// length.  (Ranges are used because three plain indices in one step take CBMC > 10 min; the plain index conversion is
+/// covered by ks_pick_index_sym and by the complete harness idx_convert_index.)
 #[kani::proof]
 #[kani::unwind(6)]
-fn ks_pick_indices() {
-    let a = [sc_w2().it, sc_w0().it, sc_str1().it, f9()];
+fn ks_pick_desc_rep() {
+    let a = [sc_w2().it, sc_w0().it, sc_str1().it];
     let doc = lay_array(&a);
     let offs = array_offsets(0, &a);
     let ix = vec![
-        ArrayIndex::Index(Index::Index(2)),
-        ArrayIndex::Index(Index::Index(4)),
-        ArrayIndex::Index(Index::Index(0)),
-        ArrayIndex::Slice((Index::Index(5), Index::Index(9))),
+        ArrayIndex::Slice((Index::Index(2), Index::Index(2))),
+        ArrayIndex::Slice((Index::Index(0), Index::Index(0))),
+        ArrayIndex::Slice((Index::Index(2), Index::LastIndex(0))),
+    ];
+    let sel = selector0();
+    let mut q = VecDeque::new();
+    assert!(sel.select_by_indices(doc.as_slice(), 0, &ix, &mut q).is_ok());
+    assert!(q.len() == 3);
+    expect_pos(&mut q, &a[2], offs[2]);
+    expect_pos(&mut q, &a[0], offs[0]);
+    expect_pos(&mut q, &a[2], offs[2]);
+}
+
+/// C08 `$[3 to 5, last-1 to last]` on [str1, float, null|bool] (widths 1,9,0): an out-of-range range is dropped, a range
+/// touching the end selects the elements 1, 2
+#[kani::proof]
+#[kani::unwind(6)]
+fn ks_pick_slice() {
+    let a = [sc_str1().it, f9(), sc_w0().it];
+    let doc = lay_array(&a);
+    let offs = array_offsets(0, &a);
+    let ix = vec![
+        ArrayIndex::Slice((Index::Index(3), Index::Index(5))),
         ArrayIndex::Slice((Index::LastIndex(-1), Index::LastIndex(0))),
     ];
     let sel = selector0();
     let mut q = VecDeque::new();
     assert!(sel.select_by_indices(doc.as_slice(), 0, &ix, &mut q).is_ok());
-    assert!(q.len() == 4);
+    assert!(q.len() == 2);
+    expect_pos(&mut q, &a[1], offs[1]);
     expect_pos(&mut q, &a[2], offs[2]);
-    expect_pos(&mut q, &a[0], offs[0]);
-    expect_pos(&mut q, &a[2], offs[2]);
-    expect_pos(&mut q, &a[3], offs[3]);
 }
 
 /// C08 `$[i]` / `$[last + k]` with a symbolic i, k in -4..=4 on [null|bool, w2, str1]: exactly the element with that
@@ -301,22 +319,25 @@ fn ks_convert_slice() {
     }
 }
 
-/// C08 an array that does not start at offset 0: `[2, 0]` inside [w2, [str1, null|bool, str2]]: absolute offsets
+/// C08 an array that does not start at offset 0: `[1 to 1, 0 to 0]` inside [w2, [str1, null|bool]]: absolute offsets
 #[kani::proof]
 #[kani::unwind(6)]
 fn ks_pick_nested() {
-    let e = [sc_str1().it, sc_w0().it, sc_str2().it];
+    let e = [sc_str1().it, sc_w0().it];
     let inner = lay_array(&e);
     let a = [sc_w2().it, cont(&inner)];
     let doc = lay_array(&a);
     let base = array_offsets(0, &a)[1];
     let offs = array_offsets(base, &e);
-    let ix = vec![ArrayIndex::Index(Index::Index(2)), ArrayIndex::Index(Index::Index(0))];
+    let ix = vec![
+        ArrayIndex::Slice((Index::Index(1), Index::Index(1))),
+        ArrayIndex::Slice((Index::Index(0), Index::Index(0))),
+    ];
     let sel = selector0();
     let mut q = VecDeque::new();
     assert!(sel.select_by_indices(doc.as_slice(), base, &ix, &mut q).is_ok());
     assert!(q.len() == 2);
-    expect_pos(&mut q, &e[2], offs[2]);
+    expect_pos(&mut q, &e[1], offs[1]);
     expect_pos(&mut q, &e[0], offs[0]);
 }
 
@@ -390,23 +411,29 @@ fn ks_pick_dot_wildcard() {
     assert!(q.len() == 0);
 }
 
-/// C08 `[*]` on [float, null|bool, [str1], w2]: every element in order (a nested container among them); on an object
-/// and on a scalar document: the value itself (lax mode)
+/// C08 `[*]` on [float, null|bool, [str1]]: every element in order (a nested container among them)
 #[kani::proof]
 #[kani::unwind(6)]
 fn ks_pick_bracket_wildcard() {
     let inner = lay_array(&[sc_str1().it]);
-    let a = [f9(), sc_w0().it, cont(&inner), sc_w2().it];
+    let a = [f9(), sc_w0().it, cont(&inner)];
     let doc = lay_array(&a);
     let offs = array_offsets(0, &a);
     let sel = selector0();
     let mut q = VecDeque::new();
     assert!(sel.select_array_values(doc.as_slice(), 0, doc.n, &mut q).is_ok());
-    assert!(q.len() == 4);
+    assert!(q.len() == 3);
     expect_pos(&mut q, &a[0], offs[0]);
     expect_pos(&mut q, &a[1], offs[1]);
     expect_pos(&mut q, &a[2], offs[2]);
-    expect_pos(&mut q, &a[3], offs[3]);
+}
+
+/// C08 `[*]` on an object and on a scalar document: the value itself (lax mode)
+#[kani::proof]
+#[kani::unwind(6)]
+fn ks_pick_bracket_lax() {
+    let sel = selector0();
+    let mut q = VecDeque::new();
     let odoc = lay_object(&[key1()], &[sc_w0().it]);
     assert!(sel.select_array_values(odoc.as_slice(), 0, odoc.n, &mut q).is_ok());
     assert!(q.len() == 1);
@@ -478,8 +505,13 @@ fn plain_path() -> JsonPath<'static> {
 fn run_select(path: JsonPath<'_>, mode: Mode, root: &[u8]) -> Out {
     let pre: u8 = kani::any();
     let sel = Selector::new(path, mode);
-    let mut data: Vec<u8> = vec![0xAA, pre, 0x55];
-    let mut offsets: Vec<u64> = vec![NPRE as u64];
+    // the caller's buffers have spare capacity (no reallocation while the result is appended)
+    let mut data: Vec<u8> = Vec::with_capacity(64);
+    data.push(0xAA);
+    data.push(pre);
+    data.push(0x55);
+    let mut offsets: Vec<u64> = Vec::with_capacity(8);
+    offsets.push(NPRE as u64);
     let r = sel.select(root, &mut data, &mut offsets);
     assert!(r.is_ok());
     Out { data, offsets, pre }
@@ -563,16 +595,27 @@ fn ks_modes_1_array() {
 }
 
 /// C15/C17 two results (a payload-less item, then a 2-byte item), Mode::All: both documents, offsets are running
-/// ABSOLUTE end positions; Mode::First: the first item of the All result only
+/// ABSOLUTE end positions
 #[kani::proof]
 #[kani::unwind(6)]
 #[kani::stub(Selector::find_positions, fp_stub)]
-fn ks_modes_2_all_first() {
+fn ks_modes_2_all() {
     let a = [sc_w0().it, sc_w2().it];
     let doc = lay_array(&a);
     let offs = array_offsets(0, &a);
     set_positions(&[a[0], a[1]], &[offs[0], offs[1]]);
     check_items(&run_select(plain_path(), Mode::All, doc.as_slice()), &[a[0], a[1]]);
+}
+
+/// C15/C17 two results, Mode::First: the first item of the All result only
+#[kani::proof]
+#[kani::unwind(6)]
+#[kani::stub(Selector::find_positions, fp_stub)]
+fn ks_modes_2_first() {
+    let a = [sc_w2().it, sc_w0().it];
+    let doc = lay_array(&a);
+    let offs = array_offsets(0, &a);
+    set_positions(&[a[0], a[1]], &[offs[0], offs[1]]);
     check_items(&run_select(plain_path(), Mode::First, doc.as_slice()), &[a[0]]);
 }
 
